@@ -383,6 +383,17 @@ func judge(c Case, o *vh.Obs) {
 					return
 				}
 			}
+			if op == "oddsigs-empty" {
+				// the same entry built in memory: a signature that holds nothing
+				e3 := new(gobl.Envelope)
+				if err := json.Unmarshal(data, e3); err == nil {
+					e3.Signatures = []*dsig.Signature{new(dsig.Signature)}
+					if e3.Validate() == nil {
+						o.Failf("oddsigs:zero-accepted", "step %d (%s): an envelope whose signature list holds a signature without content validates (it serialises as [\"\"], which cannot be read back)", i, history(i))
+						return
+					}
+				}
+			}
 			o.Class("odd-sigs")
 			// the history continues on the untouched envelope
 		default:
@@ -480,7 +491,7 @@ func genCase(t *rapid.T) Case {
 
 func init() {
 	vh.Describe(
-		"Operation alphabet (19): insert another document (2), calculate, edit the document, drop / set its code, sign with key 1 / key 2, unsign, add stamp (2 providers, replacing), add two stamps of one provider, add / alter a link, add two links of one key, validate, verify with key 1, serialise+parse, and parsing the envelope with a signature list of [\"\"] or [null]. Every sequence up to length 3 (thorough: 5 for the first base, 4 for the others) from three example invoices of different regimes is enumerated exhaustively; rapid draws sequences of length 4-30. Reference machine over the four facts (digest matches; document valid for signing = carries a code and no duplicate header entries; signatures present; header still contains each signed header): it predicts ok / error key of sign and validate, the verdict of verify and the signature count after every step; invariants: a failed Sign leaves zero signatures, a validating envelope with stamps is signed, every signature entry is real (non-empty, parses back), validate and serialise+parse do not change the envelope. Non-trivial: the history contains an interaction pair (e.g. sign after edit, stamp after unsign, second signature after a header change) or an odd signature list.",
+		"Operation alphabet (19): insert another document (2), calculate, edit the document, drop / set its code, sign with key 1 / key 2, unsign, add stamp (2 providers, replacing), add two stamps of one provider, add / alter a link, add two links of one key, validate, verify with key 1, serialise+parse, and parsing the envelope with a signature list of [\"\"] or [null] (the first also built in memory: a signature that holds nothing must not validate). Every sequence up to length 3 (thorough: 5 for the first base, 4 for the others) from three example invoices of different regimes is enumerated exhaustively; rapid draws sequences of length 4-30. Reference machine over the four facts (digest matches; document valid for signing = carries a code and no duplicate header entries; signatures present; header still contains each signed header): it predicts ok / error key of sign and validate, the verdict of verify and the signature count after every step; invariants: a failed Sign leaves zero signatures, a validating envelope with stamps is signed, every signature entry is real (non-empty, parses back), validate and serialise+parse do not change the envelope. Non-trivial: the history contains an interaction pair (e.g. sign after edit, stamp after unsign, second signature after a header change) or an odd signature list.",
 		"the base documents are valid examples; edits keep them structurally valid",
 	)
 	vh.Enum("exhaustive", enumAll, judge)
